@@ -100,6 +100,15 @@ def units(rng, tier):
             s1 = sorted(sum(l) for l in c1)
             s2 = sorted(sum(l) for l in c2)
             us.append(U("all_combinations", {"keep": False, "b1": mkbins(s1, False), "b2": mkbins(s2, False), "numpy": rng.random() < 0.5}, f"allcomb/sums-k{k}"))
+    # zero-valued items: bins with sum 0 that are NOT empty ([0], [0, 0]) next to empty ones - equal sums, different contents
+    pool_zero = [[], [0], [0, 0], [1], [0, 1], [2]]
+    for k in (2, 3, 4):
+        combos = list(itertools.product(pool_zero, repeat=k))
+        for c1 in rng.sample(combos, min(len(combos), 30 if tier == "quick" else 200)):
+            c2 = rng.choice(combos)
+            c1 = sorted(c1, key=sum)
+            c2 = sorted(c2, key=sum)
+            us.append(U("all_combinations", {"keep": True, "b1": mkbins(c1, True), "b2": mkbins(c2, True), "numpy": rng.random() < 0.5}, f"allcomb/contents-k{k}-zero-valued-items"))
     for _ in range(30 if tier == "quick" else 300):
         k = rng.choice([3, 4, 4, 5])
         mk = lambda: [[rng.randint(1, 9) for _ in range(rng.randint(0, 2))] for _ in range(k)]
